@@ -2,6 +2,7 @@ import Model
 import Spec
 import Gen
 import Proofs.Retry
+import Proofs.Bufio
 /-!
   C07 — concurrent and retried writes deliver each message whole, exactly once.
   (A) `writeRetry` / `writeStreamRetry`: the transport is any script of (bytes accepted, error)
@@ -75,9 +76,40 @@ theorem C07_quiescent (prog : Nat → List Bytes) (es : List WEv) (s : WSys)
     rw [(hq i).1, (hq i).2] at this
     simpa [cur] using this
 
-/-- the structural fact the LTS stands on, regenerated from server.go: `response.Write` takes
-    `w.mu` first, releases it by defer, and contains both the buffered Write and the Flush -/
-theorem C07_gen : Gen.responseWriteLocked = true ∧ Gen.MessageBufferLength = 1024 := by decide
+/-- (A') The same through the library's own writer: `WriteToWithRetry(conn, r)` on a `diam.Conn`
+    whose `response.Write` goes through the connection's `bufio.Writer` (buffered below 4096
+    octets, written directly above). For every message image, retry budget and transport
+    behaviour: the transport is given a prefix of the message, once; a nil error means all of it
+    and the count is its length; after an error the writer is in bufio's sticky state, ... -/
+theorem C07_retry_conn (b : Bytes) (r : Nat) (os : List Outcome) :
+    let res := connWriteRetry r {} b os
+    (∃ k, k ≤ b.length ∧ res.accepted.flatten = b.take k) ∧
+    (res.err = none → res.accepted.flatten = b ∧ res.n = b.length ∧ res.st.healthy) ∧
+    (res.err ≠ none → res.st.err ≠ none) :=
+  connWriteRetry_spec r {} ⟨rfl, rfl⟩ b os
+
+/-- ... in which nothing reaches the transport any more: an incomplete message is the last
+    thing the peer receives from this connection, so the stream never goes out of frame -/
+theorem C07_failed_write_is_final (st : BW) (e : EK) (he : st.err = some e) (p : Bytes) (os : List Outcome) :
+    respWrite st p os = ((0, some e), { st := st, os := os, acc := [] }) :=
+  respWrite_sticky st e he p os
+
+/-- and a writer that has completed a message is ready for the next (induction step for any
+    sequence of messages on one connection) -/
+theorem C07_conn_next (st : BW) (h : st.healthy) (b : Bytes) (r : Nat) (os : List Outcome) :
+    let res := connWriteRetry r st b os
+    (∃ k, k ≤ b.length ∧ res.accepted.flatten = b.take k) ∧
+    (res.err = none → res.accepted.flatten = b ∧ res.n = b.length ∧ res.st.healthy) ∧
+    (res.err ≠ none → res.st.err ≠ none) :=
+  connWriteRetry_spec r st h b os
+
+/-- the structural facts the models stand on, regenerated from server.go: `response.Write` takes
+    `w.mu` first, releases it by defer, and contains both the buffered Write and the Flush; on an
+    error it returns a count of zero; nothing resets a buffered writer -/
+theorem C07_gen : Gen.responseWriteLocked = true ∧ Gen.MessageBufferLength = 1024 ∧
+    Gen.responseWriteReturns = ["return msc.Write(b)", "return 0,err", "return 0,err", "return n,nil"] ∧
+    Gen.serverResetCalls = [] ∧
+    Gen.connBufferSources = ["c.buf=bufio.NewReadWriter(bufio.NewReader(&c.sr),bufio.NewWriter(rwc))"] := by decide
 
 /-- non-vacuity (A): 10 bytes, budget 2: 3 accepted + temporary error, 0 + temporary, then 7 -/
 example : contract [1,2,3,4,5,6,7,8,9,10] 2 [⟨3, some .temp⟩, ⟨0, some .temp⟩, ⟨7, none⟩] ∧
@@ -85,6 +117,14 @@ example : contract [1,2,3,4,5,6,7,8,9,10] 2 [⟨3, some .temp⟩, ⟨0, some .te
       = [[1,2,3,4,5,6,7,8,9,10], [4,5,6,7,8,9,10], [4,5,6,7,8,9,10]] := by
   refine ⟨?_, by decide⟩
   simp [contract, Outcome.ok]
+
+/-- non-vacuity (A'): a 5000-octet message written directly, 100 octets accepted with a temporary
+    error, two retries: the transport holds those 100 octets and nothing else; the call fails -/
+example :
+    let b : Bytes := List.replicate 5000 7
+    let res := connWriteRetry 2 {} b [⟨100, some .temp⟩]
+    res.accepted.flatten.length = 100 ∧ res.err = some .temp ∧ res.attempts = 3 := by
+  decide +kernel
 
 /-- non-vacuity (B): two writers, the second blocked while the first's write is stalled half-way -/
 example :
